@@ -124,6 +124,7 @@ class Spec:
         st.mode = "exact"  # "exact" | "consistency" (statement does not fix the outcome) | "tainted" (known defect class)
         st.reopened = 0
         st.saved = 0
+        st.steps = 0
         if extra:
             rect = [int(x) for x in extra.split(",")]
             t.merge_cells(a1_range(rect))
@@ -144,11 +145,13 @@ class Spec:
             if self.singles:
                 for x in free:
                     evs.append(["merge", list(x)])
-            if self.pairs_at_root and not st.rects:
+            if self.pairs_at_root and not st.rects and (self.singles or st.steps == 0):
                 for i, x in enumerate(free):
                     for y in free[i + 1 :]:
                         if disjoint(x, y):
                             evs.append(["merge2", list(x), list(y)])
+        if not self.singles and not st.rects:
+            return evs  # pairs-structural: the pair comes first, structural edits follow
         if self.writes:
             for r in range(nr):
                 for c in range(nc):
@@ -209,6 +212,7 @@ class Spec:
         t = st.doc.sheets[0].tables[0]
         kind = ev[0]
         fails = []
+        st.steps += 1
         try:
             if kind == "merge":
                 t.merge_cells(a1_range(ev[1]))
@@ -368,7 +372,7 @@ SPECS = {"full": Spec(pairs_at_root=True), "nopairs": Spec(pairs_at_root=False),
 def plan(tier):
     if tier == "quick":
         return [("full", ["3x3"], 1, True), ("nopairs", ["3x3"], 2, True), ("nopairs", ["3x3+saved:1,1,2,2", "3x3+saved:0,1,0,2"], 1, True), ("nopairs", ["2x5", "4x4"], 1, True),
-                ("pairs-structural", ["5x2", "2x5"], 2, True)]
+                ("pairs-structural", ["5x2"], 2, True)]
     return [("full", ["3x3", "2x5", "4x4"], 2, True), ("nopairs", ["3x3"], 3, True), ("nopairs", ["3x3+saved:1,1,2,2", "3x3+saved:0,1,0,2", "4x4+saved:2,2,3,3"], 2, True),
             ("nopairs", ["4x4"], 3, False), ("nopairs", ["2x3"], 4, True), ("pairs-structural", ["5x2", "2x5", "5x3", "4x4"], 2, True)]
 
